@@ -386,6 +386,13 @@ func (h *harness) confirm(sc *Script, first *Outcome) *Outcome {
 		}
 		first = o
 	}
+	if len(first.Viol) == 0 {
+		b, _ := json.Marshal(sc)
+		if len(b) > 3000 {
+			b = b[:3000]
+		}
+		h.ctx.Note("model/implementation disagreement that persists alone: " + string(b))
+	}
 	return first
 }
 
@@ -482,6 +489,9 @@ func Run(ctx *corr.Ctx) {
 	}
 	for i := range ctx.N(150, 3000) {
 		scripts = append(scripts, g.concurrent(i))
+	}
+	for i := range ctx.N(250, 6000) {
+		scripts = append(scripts, g.secure(i))
 	}
 	h.process(scripts)
 }
